@@ -117,7 +117,12 @@ func NewSubscriberWithConcurrencyMode[T any](destination Observer[T], mode Concu
 func newSubscriberImpl[T any](mode ConcurrencyMode, mu xsync.Mutex, backpressure Backpressure, destination Observer[T]) Subscriber[T] {
 	// Protect against multiple encapsulation layers.
 	if subscriber, ok := destination.(Subscriber[T]); ok {
-		return subscriber
+		// An unsafe subscriber cannot serialize a producer that requires a safe one:
+		// wrap it instead of reusing it.
+		impl, isImpl := subscriber.(*subscriberImpl[T])
+		if !isImpl || mode == ConcurrencyModeUnsafe || impl.mode != ConcurrencyModeUnsafe {
+			return subscriber
+		}
 	}
 
 	subscriber := &subscriberImpl[T]{
